@@ -61,7 +61,10 @@ type btBox struct {
 	Txt     string `json:"txt"`
 }
 
-func c09HTML(s *btScn) string {
+// c09HTML writes the element tree. Variants of the same tree (the specification's clauses do not depend on them):
+//  1: the text of an element ends with a space and white-space-only text separates sibling elements
+//  2: an element with display: none also has float: footnote (it is hidden all the same)
+func c09HTML(s *btScn, variant int) string {
 	var b strings.Builder
 	b.WriteString(`<html><head><style>div{display:block}</style></head><body>`)
 	var emit func(i int)
@@ -74,6 +77,9 @@ func c09HTML(s *btScn) string {
 		if e.Abs {
 			st += ";position:absolute"
 		}
+		if variant == 2 && e.Display == "none" && e.Float == "none" && !e.Abs {
+			st += ";float:footnote"
+		}
 		attr := ""
 		if e.Cs > 1 {
 			attr += fmt.Sprintf(` colspan="%d"`, e.Cs)
@@ -84,6 +90,9 @@ func c09HTML(s *btScn) string {
 		fmt.Fprintf(&b, `<div id="e%d"%s style="%s">`, i, attr, st)
 		if e.Text {
 			fmt.Fprintf(&b, "t%d", i)
+			if variant == 1 {
+				b.WriteString(" ")
+			}
 		}
 		for j := i + 1; j <= len(s.Doc); j++ {
 			if s.Doc[j-1].Parent == i {
@@ -91,6 +100,9 @@ func c09HTML(s *btScn) string {
 			}
 		}
 		b.WriteString("</div>")
+		if variant == 1 {
+			b.WriteString(" ")
+		}
 	}
 	for j := 1; j <= len(s.Doc); j++ {
 		if s.Doc[j-1].Parent == 0 {
@@ -194,7 +206,11 @@ func c09Main(args []string) int {
 			out.Fatal("bad scenario: " + err.Error())
 			return
 		}
-		doc := c09HTML(&s)
+		variant := out.Cur % 3
+		if len(s.Gen) == 1 && variant == 1 {
+			variant = 0 // (the reference generator does not model white-space-only text: those trees are compared without it)
+		}
+		doc := c09HTML(&s, variant)
 		root, err := c09Build(doc)
 		if err != nil {
 			out.Fatal(err.Error())
